@@ -38,11 +38,11 @@ PATH = [(AE, "AutoEst.anchor_component"), (AM, "Automorphism._choose_anchor"), (
 
 
 def run(rep):
-    exact(rep)
-    estimate(rep)
-    dedup(rep)
-    consistency(rep)
-    anchor_selection(rep, "O11.5")
+    rep.run(exact)
+    rep.run(estimate)
+    rep.run(dedup)
+    rep.run(consistency)
+    rep.run(anchor_selection, "O11.5")
 
 
 def exact(rep):
